@@ -29,6 +29,7 @@ func livePass(r *mc.Run, n int, stride int, budget time.Duration, exec func(i in
 			r.Cap(fmt.Sprintf("live-instance pass stopped by its budget after %d of %d cases", done, (n+stride-1)/stride))
 			break
 		}
+		liveScribble()
 		got := exec(i)
 		done++
 		r.Eval(1)
@@ -69,6 +70,7 @@ func liveReplay(raw json.RawMessage, prop string, n func(tier string) int, exec 
 	defer world.LiveEnd()
 	var got string
 	for i := 0; i <= lc.Upto && i < n(lc.Tier); i += lc.Stride {
+		liveScribble()
 		got = exec(lc.Tier, i)
 	}
 	if got != want {
